@@ -646,6 +646,20 @@ def discriminator_schema_probe(R, aspects):
                                     _resolve(doc, ref)
                                 except Exception:   # noqa
                                     R.violation(f"$ref {ref} of the schema of {tp} does not resolve", dict(info, schema=doc))
+                            # the targets of a discriminator mapping are references as well, and the members of a discriminated
+                            # union are extracted whatever all_refs says
+                            disc = node.get("discriminator")
+                            if isinstance(disc, dict):
+                                for key, ref in (disc.get("mapping") or {}).items():
+                                    try:
+                                        _resolve(doc, ref)
+                                    except Exception:   # noqa
+                                        R.violation(f"discriminator mapping {key!r} -> {ref} of the schema of {tp} does not resolve",
+                                                    dict(info, schema=doc))
+                                alts = node.get("oneOf") or node.get("anyOf") or []
+                                if alts and not all(isinstance(a, dict) and "$ref" in a for a in alts):
+                                    R.violation(f"a member of the discriminated union {tp} is not given by reference "
+                                                f"(all_refs={all_refs})", dict(info, schema=doc))
                         cyc = same_instance_ref_cycle(doc)
                         if cyc:
                             R.violation(f"definition {cyc} of the schema of {tp} references itself on the same instance "
@@ -1009,3 +1023,97 @@ def stacked_constraints_probe(R, aspects):
                         return
     finally:
         apischema.cache.reset()
+
+
+def stdlib_round_trip_probe(R, aspects=("round_trip", "json", "no_copy")):
+    """standard-library types with default conversions (UUID, date / datetime / time, Decimal, bytes, Path, ip addresses,
+    Pattern, deque), alone and inside containers - as items, mapping values, mapping *keys*, Optional, tuple members,
+    dataclass fields - under no_copy on / off and pass_through collections: the output is JSON (C04), does not depend on
+    no_copy (C08), and deserializes back to an equal value of the same classes (C05)"""
+    pyrun.ensure_repo_on_path()
+    import collections
+    import dataclasses
+    import datetime
+    import decimal
+    import ipaddress
+    import json
+    import pathlib
+    import re
+    import uuid
+    from typing import Collection, Deque, Dict, FrozenSet, List, Mapping, Optional, Pattern, Sequence, Tuple
+    from apischema import PassThroughOptions, deserialize, serialize
+    vals = [(uuid.UUID, uuid.UUID(int=5), uuid.UUID(int=9)), (datetime.date, datetime.date(2020, 1, 2), datetime.date(1999, 12, 31)),
+            (datetime.datetime, datetime.datetime(2020, 1, 2, 3, 4, 5), datetime.datetime(2000, 1, 1)),
+            (datetime.time, datetime.time(1, 2, 3), datetime.time(23, 59)),
+            (decimal.Decimal, decimal.Decimal("1.5"), decimal.Decimal("-2")), (bytes, b"ab", b""),
+            (pathlib.Path, pathlib.Path("/a/b"), pathlib.Path("c")),
+            (ipaddress.IPv4Address, ipaddress.IPv4Address("1.2.3.4"), ipaddress.IPv4Address("0.0.0.0")),
+            (ipaddress.IPv6Address, ipaddress.IPv6Address("::1"), ipaddress.IPv6Address("::2")),
+            (ipaddress.IPv4Network, ipaddress.IPv4Network("10.0.0.0/8"), ipaddress.IPv4Network("192.168.0.0/16")),
+            (Pattern, re.compile("a+"), re.compile("b"))]
+
+    def same_classes(a, b):
+        if type(a) is not type(b):
+            return False
+        if isinstance(a, (list, tuple, collections.deque)):
+            return len(a) == len(b) and all(same_classes(x, y) for x, y in zip(a, b))
+        if isinstance(a, dict):
+            return len(a) == len(b) and all(same_classes(x, y) for x, y in zip(sorted(a, key=repr), sorted(b, key=repr))) \
+                and all(same_classes(a[k], b[k]) for k in a)
+        if dataclasses.is_dataclass(a):
+            return all(same_classes(getattr(a, f.name), getattr(b, f.name)) for f in dataclasses.fields(a))
+        return True
+
+    for T, v1, v2 in vals:
+        H = dataclasses.make_dataclass("H", [("x", T), ("ys", List[T], dataclasses.field(default_factory=list)),
+                                             ("by", Dict[T, int], dataclasses.field(default_factory=dict))])
+        wrapped = [(T, v1), (List[T], [v1, v2]), (Sequence[T], [v1]), (Collection[T], [v2, v1]), (Tuple[T, ...], (v1, v2)),
+                   (Dict[str, T], {"k": v1, "l": v2}), (Optional[T], v1), (Optional[T], None), (Tuple[T, int], (v1, 1)),
+                   (Dict[T, int], {v1: 1, v2: 2}), (Dict[T, Optional[str]], {v1: None, v2: "s"}), (Mapping[T, bool], {v1: True}),
+                   (Dict[T, List[T]], {v1: [v2]}), (List[Dict[T, int]], [{v1: 1}, {}]), (FrozenSet[T], frozenset({v1})),
+                   (Deque[T], collections.deque([v1, v2])), (H, H(v1, [v2], {v2: 3})), (List[H], [H(v2)]),
+                   (Dict[str, Dict[T, str]], {"a": {v1: "x"}})]
+        if T is decimal.Decimal:
+            # serialized as a number: as a mapping key it is not a string, json.dumps renders it and the text is not read back
+            # (like Dict[int, X]: JSON object keys are strings)
+            wrapped = [(W, wv) for W, wv in wrapped if not (isinstance(wv, dict) and any(isinstance(k, decimal.Decimal) for k in wv))
+                       and not (isinstance(wv, list) and any(isinstance(x, dict) and any(isinstance(k, decimal.Decimal) for k in x) for x in wv))
+                       and not (isinstance(wv, dict) and any(isinstance(x, dict) and any(isinstance(k, decimal.Decimal) for k in x) for x in wv.values()))
+                       and not dataclasses.is_dataclass(wv) and not (isinstance(wv, list) and any(dataclasses.is_dataclass(x) for x in wv))]
+        for W, wv in wrapped:
+            label = str(W) if not isinstance(W, type) else W.__name__
+            outs = {}
+            for name, kw in (("no_copy", dict(no_copy=True)), ("copy", dict(no_copy=False)),
+                             ("pass_through_collections", dict(no_copy=True, pass_through=PassThroughOptions(collections=True)))):
+                R.count("stdlib_round_trip_probe")
+                try:
+                    out = serialize(W, wv, **kw)
+                except Exception as e:
+                    R.violation(f"serialize({label}, ...) raised {type(e).__name__}: {str(e)[:150]}", dict(type=label, value=repr(wv), options=name))
+                    break
+                if name != "pass_through_collections":
+                    outs[name] = out
+                try:
+                    j = json.loads(json.dumps(out))
+                except (TypeError, ValueError) as e:
+                    if name == "pass_through_collections":
+                        continue      # the named types are left untouched on purpose
+                    if "json" in aspects or "round_trip" in aspects:
+                        R.violation(f"serialize({label}, {wv!r}) is not JSON data ({name}): {out!r} ({e})",
+                                    dict(type=label, value=repr(wv), options=name, output=repr(out)))
+                    break
+                if "round_trip" in aspects:
+                    try:
+                        back = deserialize(W, j)
+                    except Exception as e:
+                        R.violation(f"deserialize rejects the output of serialize for {label}: {type(e).__name__}: {str(e)[:150]}",
+                                    dict(type=label, value=repr(wv), options=name, output=repr(out)))
+                        break
+                    if not (back == wv and same_classes(back, wv)):
+                        R.violation(f"deserialize({label}, serialize({label}, v)) = {back!r} differs from v = {wv!r}",
+                                    dict(type=label, value=repr(wv), options=name, output=repr(out)))
+                        break
+            else:
+                if "no_copy" in aspects and outs.get("no_copy") != outs.get("copy"):
+                    R.violation(f"serialize({label}, {wv!r}) depends on no_copy: {outs.get('no_copy')!r} vs {outs.get('copy')!r}",
+                                dict(type=label, value=repr(wv)))
